@@ -324,6 +324,27 @@ class Slot:
         return self.ev(e)
 
 
+    def unpack_small(self):
+        """unpack_header (SDMF) and the checkstring helpers on the first bytes of a complete header"""
+        data = self.content() or b""
+        if len(data) < 123 or data[:1] not in (b"\x00", b"\x01"):
+            return
+        try:
+            ver = L.get_version_from_checkstring(data[:57])
+            if ver == 0:
+                (seqnum, root, iv) = L.unpack_sdmf_checkstring(data[:57])
+            else:
+                (seqnum, root), iv = L.unpack_mdmf_checkstring(data[:41]), b""
+            v = {"version": ver, "seqnum": seqnum, "root": runs(root), "salt": runs(iv)}
+            if ver == 0:
+                (version, seqnum, root, iv, k, n, segsize, datalen, o) = L.unpack_header(data)
+                v["hdr"] = {"version": version, "seqnum": seqnum, "root": runs(root), "salt": runs(iv), "k": k, "n": n, "segsize": segsize,
+                            "datalen": datalen, "offs": {str(a): b for a, b in o.items()}}
+            self.ev({"ev": "UnpackSmall", "res": {"st": "ok", "val": v}})
+        except Exception as x:
+            self.ev({"ev": "UnpackSmall", "res": {"st": "exc:" + type(x).__name__}})
+
+
 class Env:
     def __init__(self, workdir, seed):
         self.dir = tempfile.mkdtemp(prefix="mutlayout", dir=workdir)
@@ -443,6 +464,7 @@ def trace_case(env, rng, case, idx, reads):
     read_everything(s, "r3", rng.choice([size, size, rng.randint(123, max(123, size))]), True, nseg, rng, some=reads)
     if P["fmt"] == "sdmf":
         s.unpack()
+    s.unpack_small()
     return {"consts": {"kind": "case", "fmt": P["fmt"], "via": via}, "events": s.events}
 
 
@@ -614,7 +636,44 @@ def trace_damage(env, rng):
     c = s.content()
     if c is not None and len(c) >= 107 and (c[:1] == b"\x00" or rng.random() < 0.2):
         s.unpack()
+    s.unpack_small()
     return {"consts": {"kind": "damage", "fmt": P["fmt"], "via": "proxy", "damage": kind}, "events": s.events}
+
+
+def trace_fixed(env, rng, which):
+    """three scenarios that every run contains (the inputs of the recorded findings)"""
+    s = Slot(env, rng)
+    Ln = {"vk": 5, "sig": 4, "nsh": 2, "nbh": 2, "epk": 7}
+    if which == 0:        # an SDMF writer that was told "no share there" meets a share
+        build_share(s, {"fmt": "mdmf", "k": 2, "n": 3, "segsize": 4, "datalen": 7, "seqnum": 3, "shnum": 1}, Ln)
+        P = {"fmt": "sdmf", "k": 2, "n": 3, "segsize": 4, "datalen": 3, "seqnum": 4, "shnum": 1}
+        wid = s.new_writer(P)
+        documented_puts(s, wid, P, Ln)
+        s.set_cs(wid, "lit", bytes=b"")
+        s.get_cs(wid)
+        s.finish(wid)
+        read_everything(s, "r1", 0, False, 1, rng, some=6)
+    elif which == 1:      # finish_publishing before the block hash tree
+        P = {"fmt": "mdmf", "k": 3, "n": 5, "segsize": 6, "datalen": 14, "seqnum": 1, "shnum": 4}
+        wid = s.new_writer(P)
+        documented_puts(s, wid, P, Ln, skip=("blockhashes",))
+        s.finish(wid)
+        documented_puts(s, wid, P, Ln, order=["blockhashes"])
+        s.finish(wid)
+        read_everything(s, "r1", 0, False, 3, rng, some=8)
+    else:                 # offset tables that run backwards
+        fmt = "mdmf" if which == 2 else "sdmf"
+        P = {"fmt": fmt, "k": 2, "n": 4, "segsize": 4, "datalen": 4 if fmt == "sdmf" else 9, "seqnum": 9, "shnum": 0}
+        build_share(s, P, Ln)
+        if fmt == "mdmf":
+            s.damage("poke", pos=67, width=8, value=5)        # share_hash_chain in front of enc_privkey
+        else:
+            s.damage("poke", pos=79, width=4, value=5)        # share_hash_chain in front of signature
+        for g in ("encprivkey", "signature", "sharehashes", "verification_key", "blockhashes", "verinfo"):
+            s.read("r1", g)
+        if fmt == "sdmf":
+            s.unpack()
+    return {"consts": {"kind": "fixed", "fmt": "mixed", "via": "proxy", "which": which}, "events": s.events}
 
 
 def main():
@@ -633,6 +692,8 @@ def main():
         cases = json.load(open(a.inp))["cases"] if a.inp else []
         for idx, case in enumerate(cases):
             traces.append(guard(trace_case, env, rng, case, idx, a.reads))
+        for which in range(4):
+            traces.append(guard(trace_fixed, env, rng, which))
         kinds = [trace_order, trace_cs, trace_damage]
         for i in range(a.n):
             traces.append(guard(kinds[i % 3], env, rng))
